@@ -18,6 +18,17 @@ let () =
       | ["Q"; svc; name; st; names] ->
           let c = { M.c_service = (match svc with "admin" -> M.Admin | "workflow" -> M.Workflow | _ -> M.Other); M.c_name = coq_string name; M.c_stream = (st = "1") } in
           print_endline (if M.forwarded !pol c (lst names) then "Q 1" else "Q 0")
+      | ["F"; names] ->
+          (match !pol with
+           | None -> print_endline ("F " ^ names)
+           | Some p ->
+               let rec ocaml_of (s : M.string) : Stdlib.String.t = match s with
+                 | M.EmptyString -> ""
+                 | M.String (M.Ascii (b0, b1, b2, b3, b4, b5, b6, b7), rest) ->
+                     let bit b i = if b then 1 lsl i else 0 in
+                     Stdlib.String.make 1 (Char.chr (bit b0 0 + bit b1 1 + bit b2 2 + bit b3 3 + bit b4 4 + bit b5 5 + bit b6 6 + bit b7 7)) ^ ocaml_of rest in
+               let res = M.list_filter p (lst names) in
+               print_endline ("F " ^ (if res = [] then "-" else Stdlib.String.concat "," (List.map (fun x -> let o = ocaml_of x in if o = "" then "<empty>" else o) res))))
       | _ -> print_endline ("? " ^ line)
     done
   with End_of_file -> ()
